@@ -130,8 +130,9 @@ def _run_shard(idx, reqs, tag):
     attempt = 0
     while todo:
         attempt += 1
-        fin = os.path.join(d, "%s-%d-%d.in" % (tag, idx, attempt))
-        fout = os.path.join(d, "%s-%d-%d.out" % (tag, idx, attempt))
+        uniq = random.randrange(1 << 40)
+        fin = os.path.join(d, "%s-%d-%d-%x.in" % (tag, idx, attempt, uniq))
+        fout = os.path.join(d, "%s-%d-%d-%x.out" % (tag, idx, attempt, uniq))
         with open(fin, "w") as f:
             for r in todo:
                 f.write(json.dumps(r) + "\n")
